@@ -44,20 +44,22 @@ class Obj:
 
 
 def BOUNDS(tier):
-    n = 3 if tier == "quick" else 4
-    return {"max_nodes_source": n, "ops": OPS, "flavours": FLAVOURS, "other_tree": "one node", "follow_up": 7}
+    return {"max_nodes_source": "2 (3 for tree/node copy of int trees)" if tier == "quick" else "3 (4 for Tree.copy of int trees)", "ops": OPS, "flavours": FLAVOURS, "other_tree": "one node", "follow_up": 7}
 
 
 def shards(tier):
-    n = 3 if tier == "quick" else 4
     out = []
     for op in OPS:
         for fl in FLAVOURS:
-            nn = n if fl in ("R1", "typed") else n - 1
-            if op in ("copy_to_other", "add_tree_other") and tier == "quick":
-                nn = min(nn, 2)
+            if tier == "quick":
+                nn = 3 if (fl == "R1" and op in ("tree_copy", "node_copy")) else 2
+            else:
+                nn = 4 if (fl == "R1" and op == "tree_copy") else 3
             for sh in shapes_upto(nn, 1):
-                out.append({"name": "%s-%s-%s" % (op, fl, shape_str(sh)), "op": op, "fl": fl, "shape": list(sh)})
+                # fidelity: every argument combination, no follow-up mutation;
+                # independence: default arguments, one symbolic follow-up mutation
+                for mode in ("fid", "ind"):
+                    out.append({"name": "%s-%s-%s-%s" % (op, fl, mode, shape_str(sh)), "op": op, "fl": fl, "shape": list(sh), "mode": mode})
     return out
 
 
@@ -69,17 +71,23 @@ def params(desc):
         ps += [("d%d" % i, "int", 1, None) for i in range(n)]
     if fl == "typed":
         ps += [("k%d" % i, "sel", 0, 1) for i in range(n)]
-    ps += [("f", "sel", 0, 6), ("j", "sel", 0, n - 1), ("L", "int", 1, None)]
+    ind = desc.get("mode") == "ind"
+    if ind:
+        ps += [("f", "sel", 1, 6), ("j", "sel", 0, n - 1), ("L", "int", 1, None)]
     if op in ("node_copy", "copy_to_other"):
-        ps += [("s", "sel", 0, n - 1), ("add_self", "bool", None, None)]
+        ps += [("s", "sel", 0, n - 1)]
+        if not ind:
+            ps += [("add_self", "bool", None, None)]
     if op in ("copy_to_other", "tree_copy_to_other", "add_tree_other"):
-        ps += [("o0", "int", 1, None), ("deep", "bool", None, None), ("into", "sel", 0, 1)]
-    if op == "add_tree_other":
+        ps += [("o0", "int", 1, None)]
+        if not ind:
+            ps += [("deep", "bool", None, None), ("into", "sel", 0, 1)]
+    if op == "add_tree_other" and not ind:
         ps += [("b", "sel", 0, 3)]
     return ps
 
 
-def same_branch(copies, src_nodes, fresh_from, deep=True):
+def same_branch(copies, src_nodes, fresh_from, deep=True, top_default_kind=False):
     """copies (list of nodes) mirror src_nodes (list of nodes): same data object,
     same data_id, same kind, same order; all copies are new objects."""
     if len(copies) != len(src_nodes):
@@ -98,7 +106,8 @@ def same_branch(copies, src_nodes, fresh_from, deep=True):
         if c.data_id != s.data_id:
             return "copy:data_id"
         if B.kind_of(c) != B.kind_of(s):
-            return "copy:kind"
+            if not (top_default_kind and B.kind_of(c) == "child"):
+                return "copy:kind"
         if deep:
             r = same_branch(c.children, s.children, fresh_from, True)
             if r:
@@ -115,6 +124,9 @@ def body(ctx, desc, x):
     shape = tuple(desc["shape"])
     n = len(shape)
     fl, op = desc["fl"], desc["op"]
+    x = dict(x)
+    for k, v in (("f", 0), ("j", 0), ("L", 1), ("add_self", True), ("deep", True), ("into", 0), ("b", 0)):
+        x.setdefault(k, v)
     keys = [x["l%d" % i] for i in range(n)]
     typed = fl == "typed"
     calc = None
@@ -191,6 +203,9 @@ def body(ctx, desc, x):
     ctx.mark()
     deep = x.get("deep", True) if op != "node_copy" and op != "tree_copy" else True
     c = same_branch(pairs[0], pairs[1], nodes, deep=deep)
+    if c == "copy:kind" and typed and op in ("copy_to_other", "tree_copy_to_other") and ctx.known("typed-copy_to-default-kind"):
+        # exactly the listed finding: the copied top nodes carry the default kind
+        c = same_branch(pairs[0], pairs[1], nodes, deep=deep, top_default_kind=True)
     if c:
         return c
     c = B.obs_equal(B.observe(src, nodes), obs0)
